@@ -98,6 +98,7 @@ def run(prog):
                bad(RULE, key, site(f) if f else "", "zero padding does not reserve the sign column for exactly neg || blank || sign"))
     # ---- value accounting in format_arr
     obs.extend(check_format_arr(prog))
+    obs.extend(check_render_table(prog))
     # ---- all front ends reach the same formatter
     key = "front-ends"
     want = {"jrsonnet_evaluator::stdlib::std_format": (F + "format_arr", F + "format_obj")}
@@ -113,6 +114,41 @@ def run(prog):
                    bad(RULE, key, site(g), "std_format no longer dispatches to format_arr and format_obj"))
     floors = [Floor(RULE, "obligations", len(obs), 8)]
     return obs, floors, {}
+
+
+RENDER_TABLE = {
+    # renderer: (radix, prefix counted inside the zero padding / precision)   -- as in the reference std.jsonnet / C printf:
+    # `%#.4o` of 8 is 0010 (the `0` prefix is one of the digits), `%#.4x` of 255 is 0x00ff (the prefix is extra)
+    "render_decimal": (10, False),
+    "render_octal": (8, True),
+    "render_hexadecimal": (16, False),
+}
+
+
+def check_render_table(prog):
+    obs = []
+    for name, (radix, pip) in RENDER_TABLE.items():
+        g = prog.fn(F + name)
+        key = "render-table:%s" % name
+        if g is None:
+            obs.append(bad(RULE, key, "", "%s not found" % name))
+            continue
+        calls = [(b, t) for b, t in g.calls() if (t.get("res") or t.get("fn")) == F + "render_integer" and not g.is_cleanup(b)]
+        if len(calls) != 1 or len(calls[0][1]["args"]) < 11:
+            obs.append(bad(RULE, key, site(g), "expected one call of render_integer with 11 arguments"))
+            continue
+        a = calls[0][1]["args"]
+        r = strip(g.desc_op(a[7]))
+        p_ = strip(g.desc_op(a[9]))
+        problems = []
+        if r[:2] != ("const", radix):
+            problems.append("radix %s (expected %d)" % (show(r), radix))
+        if p_[0] != "const" or bool(p_[1]) != pip:
+            problems.append("prefix_in_padding %s (expected %s)" % (show(p_), str(pip).lower()))
+        obs.append(bad(RULE, key, site(g), "%s calls render_integer with %s: `#` combined with a precision or zero padding renders differently from "
+                       "Python-style formatting" % (name, "; ".join(problems))) if problems else
+                   ok(RULE, key, site(g), "radix %d, prefix %s the padding" % (radix, "inside" if pip else "outside")))
+    return obs
 
 
 def value_takers(prog):
